@@ -14,3 +14,4 @@ import Cutadapt.Properties.C15
 #print axioms Cutadapt.C15.cli_demux_partition
 #print axioms Cutadapt.C15.generated_demux_files_and_routing
 #print axioms Cutadapt.C15.generated_comb_files_and_routing
+#print axioms Cutadapt.C15.generated_r2_only_is_unknown
